@@ -65,14 +65,71 @@ pub fn raw_bytes(s: &LeanString) -> [u8; 16] {
     unsafe { std::ptr::read(s as *const LeanString as *const [u8; 16]) }
 }
 
+pub const CANARY: u8 = 0xC7;
+
+/// One slot: the handle followed by a canary area, so that a write past the 16 inline bytes is
+/// seen (and lands in harness memory, not in the next handle).
+#[repr(C)]
+pub struct Cell {
+    pub v: Option<LeanString>,
+    canary: [u8; 240],
+}
+
+pub struct Slots(Box<[Cell; SLOTS]>);
+
+impl Slots {
+    fn new() -> Self {
+        Slots(Box::new(std::array::from_fn(|_| Cell { v: None, canary: [CANARY; 240] })))
+    }
+    pub fn iter(&self) -> impl Iterator<Item = &Option<LeanString>> {
+        self.0.iter().map(|c| &c.v)
+    }
+    pub fn iter_mut(&mut self) -> impl Iterator<Item = &mut Option<LeanString>> {
+        self.0.iter_mut().map(|c| &mut c.v)
+    }
+    pub fn swap(&mut self, a: usize, b: usize) {
+        if a != b {
+            let (x, y) = if a < b {
+                let (l, r) = self.0.split_at_mut(b);
+                (&mut l[a].v, &mut r[0].v)
+            } else {
+                let (l, r) = self.0.split_at_mut(a);
+                (&mut r[0].v, &mut l[b].v)
+            };
+            std::mem::swap(x, y);
+        }
+    }
+    /// index of a slot whose canary area was written
+    pub fn damaged(&self) -> Option<usize> {
+        self.0.iter().position(|c| c.canary.iter().any(|b| *b != CANARY))
+    }
+    pub fn repair(&mut self) {
+        for c in self.0.iter_mut() {
+            c.canary = [CANARY; 240];
+        }
+    }
+}
+
+impl std::ops::Index<usize> for Slots {
+    type Output = Option<LeanString>;
+    fn index(&self, i: usize) -> &Option<LeanString> {
+        &self.0[i].v
+    }
+}
+impl std::ops::IndexMut<usize> for Slots {
+    fn index_mut(&mut self, i: usize) -> &mut Option<LeanString> {
+        &mut self.0[i].v
+    }
+}
+
 pub struct World {
-    pub slots: Box<[Option<LeanString>; SLOTS]>,
+    pub slots: Slots,
     pub model: [Option<String>; SLOTS],
 }
 
 impl World {
     pub fn new() -> Self {
-        World { slots: Box::new([const { None }; SLOTS]), model: [const { None }; SLOTS] }
+        World { slots: Slots::new(), model: [const { None }; SLOTS] }
     }
 
     /// Observe a live handle without trusting it more than necessary. Returns Err with failures
